@@ -254,6 +254,19 @@ def main(argv):
     args = ap.parse_args(argv)
     logging.disable(logging.CRITICAL)
     pid = args.pid.upper()
+    repo = os.path.realpath(os.environ.get("VF_REPO", "/repo"))
+    try:
+        import pydcop
+
+        if not os.path.realpath(pydcop.__file__).startswith(repo + os.sep):
+            print(f"HARNESS-ERROR property={pid} pydcop imported from {pydcop.__file__}, expected under {repo}")
+            return 2
+    except BaseException:
+        traceback.print_exc()
+        print(f"HARNESS-ERROR property={pid} cannot import pydcop from {repo}")
+        return 2
+    if repo != "/repo":
+        print(f"(tree under test: {repo})")
     seed = int(os.environ.get("VERIF_SEED", "0") or 0)
     try:
         mod = importlib.import_module("vf.checks." + pid.lower())
